@@ -35,3 +35,10 @@ pub fn c20_proof_of_knowledge_commitment(msg: &[u8], sig: Signature)
     // the commitment secret x' is a draw from a fresh generator (re-drawn, again freshly, if zero)
     assert(exists|g: ChaCha20Rng| #[trigger] fresh_rng(g) && r->Ok_0.1.0 == draw_scalar(g.state()));
 }
+
+pub fn c20_elgamal_blinder(pk: &PublicKey, sk: &SecretKey)
+{
+    let ct = pk.encrypt_key_el_gamal(sk);
+    // the blinder (hence c1 = b*G) is a draw from a fresh generator
+    assert(ct is Ok ==> exists|g: ChaCha20Rng| #[trigger] fresh_rng(g) && ct->Ok_0.c1 == eg_c1(draw_scalar(g.state())));
+}
